@@ -82,10 +82,15 @@ def scene(rng, ngeom=(3, 8), types=PRIMS + ("mesh", "hfield"), meshes=("cube", "
   return f'<mujoco><visual><map znear="0.01"/></visual><asset>{"".join(assets)}</asset><worldbody>{cameras}{"".join(per[0])}{body_xml}</worldbody></mujoco>'
 
 
-def random_rays(rng, n, scales=(1.0,), spread=1.0, target=0.4):
-  """Origins around the scene, directions aimed at points near the scene centre; |vec| in `scales`."""
+def random_rays(rng, n, scales=(1.0,), spread=1.0, target=0.4, centers=None, aimed=0.6):
+  """Origins around the scene; directions aimed at points near the scene centre or (fraction `aimed`) near
+  one of `centers` (geom positions): hits, near misses and grazing rays; |vec| in `scales`."""
   pnt = rng.normal(0, spread, (n, 3))
   tgt = rng.normal(0, target, (n, 3))
+  if centers is not None and len(centers):
+    c = np.asarray(centers, dtype=np.float64)[rng.integers(0, len(centers), n)] + rng.normal(0, 0.12, (n, 3))
+    k = rng.random(n) < aimed
+    tgt[k] = c[k]
   vec = tgt - pnt
   vec /= np.linalg.norm(vec, axis=1, keepdims=True)
   vec *= rng.choice(list(scales), (n, 1))
